@@ -60,6 +60,13 @@ def plan(tier, seed):
                         for form, variant in combos:
                             items.append(dict(kind=kind, N=N, pb=pb, nb=nb, epochs=ep, form=form, variant=variant))
                             i += 1
+    # bases without a single all-Z row: the chains may only start from reference-basis rows, and there are none -
+    # the library may refuse (it does, before the first batch) but must not start chains from rotated rows
+    for kind in ("complex", "mixed"):
+        for N in (1, 2, 3):
+            for pb in (1, 2):
+                for nb in (None, 1):
+                    items.append(dict(kind=kind, N=N, pb=pb, nb=nb, epochs=1, form=FORMS[0], variant="no-z"))
     # chunk for worker efficiency
     return [dict(configs=items[j:j + 8]) for j in range(0, len(items), 8)]
 
@@ -103,6 +110,9 @@ def run_fit(cfg, tape, acc, record=None):
         with Owned(dec):
             call(st.fit, data, epochs=ep, pos_batch_size=pb, neg_batch_size=nb, k=1, lr=0.05, callbacks=[cb], **kw)
     except LibRaised as e:
+        if cfg["variant"] == "no-z" and not seen:
+            acc.outcome("no-reference-rows:refused:" + e.kind)  # refusing such data before any batch is legitimate
+            return out
         out.append((f"batching:fit-raised:{e.kind}:{'N=1' if N == 1 else 'N>1'}:{'bases' if with_bases else 'nobases'}", dict(error=str(e), tb=e.tb)))
         return out
     if not F.same(data, data0):
